@@ -110,7 +110,10 @@ def compose(rng, rel=None):
     date = date8(rng)
     respin = rng.choice([0, 1, 2, 10, 99999999])
     cid = "%s-%s-%s%s.%d" % (rel["short"], rel["version"], date, _SUFFIX[ctype], respin)
-    if rng.random() < 0.12:
+    if ctype in ("nightly", "test") and rng.random() < 0.15:
+        # the spelled-out type of old compose ids (RHEL-7.0-20131127.nightly.2)
+        cid = "%s-%s-%s.%s.%d" % (rel["short"], rel["version"], date, ctype, respin)
+    elif rng.random() < 0.12:
         # id and respin / type are independent fields: the id only has to look like an id
         cid = "%s-%s-%s%s.%d" % (rel["short"], rel["version"], date, pick(rng, list(_SUFFIX.values())), respin + pick(rng, [1, 2, 7]))
     label = None
